@@ -599,6 +599,43 @@ func checkCompPack(rep *Reporter, c compCfg, content map[int]string) {
 	})
 }
 
+// checkCompRepack: Pack, UnsetSubfield(drop), Pack again on ONE composite object gives the
+// bytes a fresh composite holding the remaining subfields packs to.
+func checkCompRepack(rep *Reporter, c compCfg, content map[int]string, drop int) {
+	specT := c.specTree()
+	line := fmt.Sprintf("HC05 %s %s unset:%d", specT.String(), compValueTree(content).String(), drop)
+	safely(rep, line, func() {
+		f, ok := impl.FieldOfTree(specT)
+		comp, isComp := f.(*field.Composite)
+		if !ok || !isComp || !impl.SetValue(f, compValueTree(content)) {
+			return
+		}
+		if _, err := f.Pack(); err != nil {
+			return // not representable: covered by checkCompPack
+		}
+		rep.Case(line)
+		if err := comp.UnsetSubfields(strconv.Itoa(drop)); err != nil {
+			return
+		}
+		again, err := f.Pack()
+		rest := map[int]string{}
+		for id, v := range content {
+			if id != drop {
+				rest[id] = v
+			}
+		}
+		fresh, ok := impl.FieldOfTree(specT)
+		if !ok || !impl.SetValue(fresh, compValueTree(rest)) {
+			return
+		}
+		want, err2 := fresh.Pack()
+		if (err == nil) != (err2 == nil) || !bytes.Equal(again, want) {
+			rep.Viol("after a subfield is unset the next Pack of a bitmapped composite does not announce exactly the subfields still set", line,
+				fmt.Sprintf("re-packed %x (err %v), a fresh composite with the remaining subfields packs to %x (err %v)", again, err, want, err2))
+		}
+	})
+}
+
 // ------------------------------------------------------------------ histories on one Message
 
 type histOp struct {
@@ -1018,6 +1055,16 @@ func runC05(t gen.Tier, r *gen.Rng, rep *Reporter) {
 				content[gen.Pick(r, c.ids)] = string(r.From([]byte("ABCxyz019"), r.Intn(5)))
 			}
 			checkCompPack(rep, c, content)
+			// C''. the same composite object packed, one subfield unset, packed again: the second
+			// bitmap announces exactly the subfields still set (bits = present at EVERY Pack)
+			if len(content) >= 2 {
+				ids := make([]int, 0, len(content))
+				for id := range content {
+					ids = append(ids, id)
+				}
+				sort.Ints(ids)
+				checkCompRepack(rep, c, content, ids[r.Intn(len(ids))])
+			}
 		}
 	}
 	// D. multi-step histories on one message object
@@ -1144,6 +1191,23 @@ func linesC05(lines []string, rep *Reporter) {
 			}
 			if good {
 				checkCompPack(rep, c, content)
+			}
+		case len(t) == 4 && t[0] == "HC05" && strings.HasPrefix(t[3], "unset:"):
+			c, ok := compCfgOfTree(t[1])
+			vt, ok2 := impl.ParseTree(t[2])
+			drop, err := strconv.Atoi(strings.TrimPrefix(t[3], "unset:"))
+			if ok && ok2 && err == nil {
+				content := map[int]string{}
+				for _, k := range vt.Kids {
+					if k.Name == "kv" && len(k.Kids) == 2 && len(k.Kids[1].Kids) == 1 {
+						id, e1 := strconv.Atoi(k.Kids[0].Name)
+						v, okv := impl.UnHex(k.Kids[1].Kids[0].Name)
+						if e1 == nil && okv {
+							content[id] = string(v)
+						}
+					}
+				}
+				checkCompRepack(rep, c, content, drop)
 			}
 		case len(t) == 3 && t[0] == "H05":
 			if c, ops, ok := parseHist(l); ok {
